@@ -61,8 +61,12 @@ def load_contracts(src):
         _al.register_select_build(src)
         import contracts.lazyarray as _lza
         _lza.register_lazyarray(src)
+        import contracts.lazystruct as _lzs
+        _lzs.register_lazystruct(src)
         import contracts.lazylemmas as _lzl
         _lzl.make(src)
+        _lzl.make_struct(src)
+        _lzl.make_nostop(src)
         import contracts.foldlemmas as _fl  # lemmas over the Array / Sequence folds; needs the fold definitions registered above
         _fl.install(src)
     import contracts.classes as cc
